@@ -2,6 +2,7 @@
 from .common import *
 from .codewrite import *
 from .lifecycle import *
+from . import patches
 from ..interp import get_path
 
 DECIDED = ("on the loop-summarised allocator of every target (one abstract iteration with all loop-carried locals havocked — sound for every "
@@ -10,7 +11,8 @@ DECIDED = ("on the loop-summarised allocator of every target (one abstract itera
            "(that result, the requested size) before the next iteration; R11.3 the only other exits diverge (exhaustion panics); R11.5 the "
            "hint advances by the page size on every back edge; and on the install roots: R11.4 no path refuses a placement the allocator "
            "accepted (the accepted distance interval is contained in what the entry-branch writer encodes), R11.6 the allocation precedes "
-           "the entry write on every path")
+           "the entry write on every path; R11.8 on every returning install path the entry patch decodes to a transfer to the placed "
+           "trampoline for every address pair that reaches it (the decision of C01 R1.1 / C15 R15.3-4, entries only)")
 NOT_DECIDED = ("whether the kernel finds a free page (environment); a mapping left behind when a later step of the installation fails for an "
                "environmental reason (mprotect/VirtualProtect refusal)")
 
@@ -238,6 +240,10 @@ def run(ck, models, tier):
                               "a placement at the edge of the allocator's range is accepted, then refused by the writer: the installation panics with "
                               "the mapping left behind" if sat else "every accepted placement is encodable"),
                           None)
+        # ---------------- R11.8 "within reach": the entry branch written for an accepted placement gets to it
+
+        k = patches.reach_obligations(ck, "R11.8", tm, lambda r: r.role == "entry", "entry-reaches-placement")
+        ck.floor("R11.8", "entry-patches-decoded", k, 6, tm.target)
         if tm.arch == "x86_64":
             # the x86-64 entry writer has no range limit: C01 R1.1 proves both forms; record the containment as trivially true
             ck.ob("R11.4", "x86_64-%s/writer-total" % tm.os, tm.target, True,
